@@ -433,6 +433,29 @@ def rule_k6(repo, col):
     col.floor("K6.pass_pairs", n_pairs, 1)
 
 
+def rule_k7(repo, col):
+    """_break_cycles replaces a node by its propagated evidence value only while translating QUERIES (is_evidence False): the evidence nodes themselves must be translated
+    structurally, otherwise each evidence root becomes the constant it was observed as and the conditioning is lost"""
+    f = repo.func("problog.cycles", "_break_cycles")
+    m = f.module
+    paths = dtable.extract(f.node, opaque_loops=True)
+    n = 0
+    bad = []
+    for p_ in paths:
+        if p_.end != "return" or p_.value is None or "get_evidence_value(" not in p_.value:
+            continue
+        n += 1
+        cd = dict((s_, t_) for s_, t_, _ in p_.conds)
+        if cd.get("is_evidence") is not False:
+            bad.append(p_)
+    if n == 0:
+        raise AnalysisError("_break_cycles: no path returns a propagated evidence value")
+    col.decide("K7", m, bad[0].stmts[-1] if bad and bad[0].stmts else f.node, not bad, "propagated evidence values are substituted only when is_evidence is false",
+               "_break_cycles returns the propagated evidence value of a node (%s) on a path where is_evidence is not known to be false: while the evidence itself is translated this turns "
+               "every evidence root into the constant it was observed as - the condition disappears (0.3::a. 0.4::b. e:-a. e:-b. evidence(e). query(a). answers 0.3 instead of 0.517)"
+               % (bad[0].value[:60] if bad else ""), construct="_break_cycles: evidence value substituted regardless of is_evidence", function="_break_cycles")
+
+
 def run(repo, col):
     col.rule("K1", "clause templates of Clark's completion")
     col.rule("K2", "weights, atoms, constraints and names are carried over")
@@ -445,3 +468,5 @@ def run(repo, col):
     rule_k4_k5(repo, col)
     col.rule("K6", "translation memo not shared between passes it is not keyed for")
     rule_k6(repo, col)
+    col.rule("K7", "evidence values are substituted into query translations only")
+    rule_k7(repo, col)
